@@ -15,6 +15,9 @@ package ollama
 //	            follow2_matches_nethttp (the model's `follow`, incl. "the body kind of the ORIGINAL
 //	            request decides").
 //
+//	verify.txt  the real verifyLayer on every relation between the blob file and the manifest entry (exact,
+//	            short, oversized with the right prefix, wrong content, empty, missing): passes? file kept?
+//	            Consumed by Tie.C09.verifyLayer_matches_model (the model's `verifyPass`).
 //	variant.txt the tree's variant flags (probes of the real code): verify-before-Link, staged chunk
 //	            files, Link's same-size shortcut, Push offers the config blob.
 //
@@ -31,6 +34,8 @@ import (
 	"path/filepath"
 	"strings"
 	"testing"
+
+	"github.com/ollama/ollama/server/internal/cache/blob"
 )
 
 type c09TabRT struct {
@@ -84,6 +89,13 @@ func c09TabBody(t *testing.T, kind, dir string) io.Reader {
 		t.Cleanup(func() { f.Close() })
 		return f
 	}
+}
+
+func b2i0(b bool) int {
+	if b {
+		return 1
+	}
+	return 0
 }
 
 func TestVerifC09Tables(t *testing.T) {
@@ -157,6 +169,32 @@ func TestVerifC09Tables(t *testing.T) {
 		}
 	}
 	if err := os.WriteFile(filepath.Join(outdir, "follow.txt"), []byte(strings.Join(follow, "\n")+"\n"), 0o644); err != nil {
+		t.Fatal(err)
+	}
+
+	// ---- verify.txt: the real verifyLayer (the last check before Link) on every relation between the blob
+	// file and the manifest entry (layer "abcdef", size 6): does it pass, is the file still there afterwards
+	var vlines []string
+	for _, sc := range []struct {
+		name string
+		data []byte // nil: no file
+	}{{"exact", []byte("abcdef")}, {"short", []byte("abc")}, {"oversized-good-prefix", []byte("abcdefx")},
+		{"wrong-content", []byte("abcdeX")}, {"empty", []byte{}}, {"missing", nil}} {
+		c, err := blob.Open(t.TempDir())
+		if err != nil {
+			t.Fatal(err)
+		}
+		d := c09Dig([]byte("abcdef"))
+		if sc.data != nil {
+			if err := os.WriteFile(c.GetFile(d), sc.data, 0o644); err != nil {
+				t.Fatal(err)
+			}
+		}
+		verr := verifyLayer(c, &Layer{Digest: d, Size: 6})
+		_, serr := os.Stat(c.GetFile(d))
+		vlines = append(vlines, fmt.Sprintf("%s %d %d", sc.name, b2i0(verr == nil), b2i0(serr == nil)))
+	}
+	if err := os.WriteFile(filepath.Join(outdir, "verify.txt"), []byte(strings.Join(vlines, "\n")+"\n"), 0o644); err != nil {
 		t.Fatal(err)
 	}
 
